@@ -14,6 +14,7 @@ var Registry = map[string]func(tier string) int{
 	"C04": C04,
 	"C05": C05,
 	"C06": C06,
+	"C07": C07,
 	"C12": C12,
 	"C13": C13,
 	"C14": C14,
